@@ -392,6 +392,12 @@ func jobC10(c *rt.Ctx) {
 			strs = append(strs, f)
 		}
 	}
+	// strings whose root-check value inside decoding ((x0^2 den - num) or (x0^2 den + num), with
+	// x0^2 den = zeta * num for a 4th root of unity zeta) has exactly ONE non-zero byte: the zero
+	// tests of the decoder must look at every byte of the field element
+	sparse := sparseCheckStrings()
+	c.Extra("sparse_check_strings", int64(len(sparse)))
+	strs = append(strs, sparse...)
 	e38 := new(big.Int).Rsh(badd(ref.P, -5), 3)
 	for _, b := range strs {
 		if !c.Take() {
@@ -640,4 +646,52 @@ func jobC09g(c *rt.Ctx) {
 			}
 		}
 	}
+}
+
+// sparseCheckStrings: y with num(zeta -+ 1) = v * 2^(8 i) for every byte position i, where
+// num = y^2 - 1 (so that y^2 = num + 1 must be a square for y to exist).
+func sparseCheckStrings() [][]byte {
+	var out [][]byte
+	im := ref.SqrtM1
+	negIm := new(big.Int).Sub(ref.P, im)
+	minus1 := badd(ref.P, -1)
+	one := big.NewInt(1)
+	var factors []*big.Int
+	for _, z := range []*big.Int{im, negIm, minus1, one} {
+		for _, d := range []int64{-1, 1} {
+			f := new(big.Int).Add(z, big.NewInt(d))
+			f.Mod(f, ref.P)
+			if f.Sign() != 0 {
+				factors = append(factors, f)
+			}
+		}
+	}
+	for pos := 0; pos < 32; pos++ {
+		for _, f := range factors {
+			found := 0
+			for v := int64(1); v < 256 && found < 1; v++ {
+				if pos == 31 && v >= 128 {
+					break
+				}
+				cval := new(big.Int).Lsh(big.NewInt(v), uint(8*pos))
+				num := new(big.Int).Mul(cval, new(big.Int).ModInverse(f, ref.P))
+				num.Mod(num, ref.P)
+				y2 := new(big.Int).Add(num, one)
+				y2.Mod(y2, ref.P)
+				y := new(big.Int).ModSqrt(y2, ref.P)
+				if y == nil {
+					continue
+				}
+				found++
+				for _, yy := range []*big.Int{y, new(big.Int).Sub(ref.P, y)} {
+					for sgn := 0; sgn < 2; sgn++ {
+						b := ref.ToLE(new(big.Int).Mod(yy, ref.P), 32)
+						b[31] |= byte(sgn) << 7
+						out = append(out, b)
+					}
+				}
+			}
+		}
+	}
+	return out
 }
